@@ -6,7 +6,7 @@ import (
 
 // gridDef describes the case grid of one property.
 type gridDef struct {
-	cases       func(tier string) []sym.CaseSpec
+	cases       func(tier string, pr *prober) []sym.CaseSpec
 	explain     string
 	bounds      func(tier string) string
 	outside     string
